@@ -62,6 +62,7 @@ impl<'a> Remote<'a> {
         let mut notified = false;
         while shared.sync.push(self.header().id).is_err() {
             if !notified && let Some(ref waker) = shared.waker {
+                // The queue is full: make sure the owner is awake to drain it.
                 waker.wake_by_ref();
                 notified = true;
             } else if self.header().state.load::<Strong>().is_cancelled() {
@@ -73,7 +74,13 @@ impl<'a> Remote<'a> {
                 crate::yield_now()
             }
         }
-        if !notified && let Some(ref waker) = shared.waker {
+        // Always notify *after* the id is in the queue, even if we already did
+        // so while waiting for room: the owner may have consumed that earlier
+        // notification, drained the queue and gone back to sleep before our
+        // push succeeded. Without a second notification the id would sit in
+        // the queue until something else wakes the owner, and other wakers
+        // waiting for room would wait with it.
+        if let Some(ref waker) = shared.waker {
             waker.wake_by_ref();
         }
 
